@@ -358,10 +358,17 @@ func (w *world) apply(o op) error {
 		if filepath.IsAbs(o.To) || strings.HasPrefix(filepath.Clean(o.To), "../") {
 			return fmt.Errorf("bad link target %q", o.To)
 		}
-		target, err := filepath.Rel(filepath.Dir(o.Path), o.To)
+		// The link target is ABSOLUTE (world directory + o.To): a relative link that is later renamed
+		// to another depth (directly or with its directory) would resolve somewhere else, possibly
+		// outside the world — e.g. the temp directory containing it, whose mtime follows the real
+		// clock and other processes — and the harness owns the clock only inside the world. (A
+		// thorough run raised exactly that once: entry "r1/b.otf", a renamed link, had two
+		// different real-clock mtimes in the two scans; it did not reproduce.)
+		cwd, err := os.Getwd()
 		if err != nil {
 			return err
 		}
+		target := filepath.Join(cwd, o.To)
 		os.MkdirAll(filepath.Dir(o.Path), 0o755)
 		os.Symlink(target, o.Path)
 		w.stampParent(o.Path)
